@@ -51,4 +51,17 @@ PROPS = {
         assumptions=TUNNEL_ASSUME,
         min_interesting=50,
     ),
+    # C13, third part: the signing fee charged through the tunnel route (x/tunnel/keeper/keeper_packet_tss.go ->
+    # bandtss.CreateTunnelSigningRequest) - same traces as C08, only the money is checked
+    "C13C": dict(
+        mc=[dict(tla="Tunnel_MC.tla", cfg="Tunnel_MC_two.cfg", tier="quick", timeout=400, workers=8)],
+        gen=dict(tla="Tunnel_Gen.tla", cfg="Tunnel_Gen.cfg", depth=32, num=dict(quick=250, thorough=3000), timeout=900),
+        drive=dict(family="tunnel", nrand=dict(quick=250, thorough=4000)),
+        trace=dict(tla="Tunnel_Trace.tla", cfg="Tunnel_Trace_C13C.cfg"),
+        rule="tunnel scripts as C08 (TSS route ok / noGroup / noNonces / inactive / maxAtt0 / tssLong, IBC route without "
+             "channel); non-trivial = a packet produced or a failed send; only fee-payer balances, the tunnel fee book and the "
+             "bandtss escrow are checked",
+        assumptions=TUNNEL_ASSUME,
+        min_interesting=50,
+    ),
 }
